@@ -497,7 +497,10 @@ def poisson (K : Consts α) (cast : α → Nat) (lambda : α) : Sampler α Nat :
   else
     match normalSample K lambda (Num.sqrt lambda) none s with
     | none => none
-    | some ((x, _), rest) => some (cast (x + (0.5 : α)), rest)
+    | some ((x, _), rest) =>
+      -- `rounded = sample + 0.5; return rounded > 0 ? result_type(rounded) : result_type(0)`
+      let rounded := x + (0.5 : α)
+      some ((if Num.gt rounded (0 : α) then cast rounded else 0), rest)
 
 /-- per-step input of the offload helpers -/
 structure Step (α : Type) where
